@@ -37,6 +37,8 @@ var c15Faults = []faultClass{
 	{name: "close-before-status-line", sim: "fault=close_before", expect: "502"},
 	{name: "garbage", sim: "fault=garbage", expect: "502"},
 	{name: "close-mid-headers", sim: "fault=close_mid_headers", expect: "502"},
+	{name: "close-after-status-line", sim: "fault=close_after_status_line", expect: "502"},
+	{name: "close-after-a-complete-header-line", sim: "fault=close_after_header_line", expect: "502"},
 	{name: "silence-just-under-timeout", sim: "fault=stall_headers:%T-", expect: "200", after: "T-"},
 	{name: "silence-past-timeout", sim: "fault=stall_headers:%T+", expect: "504", after: "T"},
 	{name: "silence-exactly-timeout", sim: "fault=stall_headers:%T", expect: "504-or-200", after: "T"},
@@ -149,7 +151,9 @@ func checkC15(r *RunResult) []Violation {
 			return out
 		}
 	}
-	add := func(clause, sig, msg string) { out = append(out, Violation{Prop: "C15", Clause: clause, Sig: sig, Msg: msg}) }
+	add := func(clause, sig, msg string) {
+		out = append(out, Violation{Prop: "C15", Clause: clause, Sig: sig, Msg: msg})
+	}
 	for _, q := range w.Responses {
 		tag := q.Op.Tag
 		if q.Ret == 0 {
